@@ -3,6 +3,7 @@ package main
 // Loading /repo's working tree: packages, SSA, function lookup.
 
 import (
+	"encoding/json"
 	"fmt"
 	"go/ast"
 	"go/token"
@@ -48,6 +49,8 @@ var scopeDirs = map[string]string{
 	"crc":         "etcd/pkg/crc",
 }
 
+var overlayFiles = map[string][]byte{}
+
 type Program struct {
 	Fset  *token.FileSet
 	Prog  *ssa.Program
@@ -79,6 +82,26 @@ func loadProgram(shorts []string) (*Program, error) {
 		Dir:        repoRoot(),
 		BuildFlags: []string{"-tags=verif"},
 		Env:        env,
+	}
+	if ov := os.Getenv("GOVC_OVERLAY"); ov != "" {
+		// {"<abs path in /repo>": "<replacement file>"}: selftest mutants without a scratch copy
+		data, err := os.ReadFile(ov)
+		if err != nil {
+			return nil, err
+		}
+		m := map[string]string{}
+		if err := json.Unmarshal(data, &m); err != nil {
+			return nil, err
+		}
+		cfg.Overlay = map[string][]byte{}
+		for k, v := range m {
+			b, err := os.ReadFile(v)
+			if err != nil {
+				return nil, err
+			}
+			cfg.Overlay[k] = b
+			overlayFiles[k] = b
+		}
 	}
 	pkgs, err := packages.Load(cfg, paths...)
 	if err != nil {
@@ -261,7 +284,11 @@ func (P *Program) srcText(start, end token.Pos) string {
 	}
 	data, ok := P.files[ps.Filename]
 	if !ok {
-		data, _ = os.ReadFile(ps.Filename)
+		if b, isOv := overlayFiles[ps.Filename]; isOv {
+			data = b
+		} else {
+			data, _ = os.ReadFile(ps.Filename)
+		}
 		P.files[ps.Filename] = data
 	}
 	if ps.Offset < 0 || pe.Offset > len(data) || ps.Offset > pe.Offset {
